@@ -18,7 +18,7 @@ func init() { register(c08{}) }
 func (c08) ID() string            { return "C08" }
 func (c08) EvidenceLevel() string { return "exploration" }
 func (c08) Rule() string {
-	return "case = 1..6 gzip members written back to back, each by fastgo or the standard library at a random level with its own header, payloads incl. empty and > 64 KiB; optional trailing non-gzip data (1 byte, 100 bytes); destination sizes as in C02; *bufio.Reader source of 64, 4096 or 65536 bytes. Default mode: the Reader must return the concatenation of the payloads, then io.EOF (when no trailing data), with the first member's header. Multistream(false)+Reset on the same source: each member's payload and header separately and in order; Reset after the last member returns io.EOF when nothing follows; trailing data are still in the source, untouched, after the last member's io.EOF. Non-trivial: at least two members; distinct by (sequence digest, mode, source)."
+	return "case = 1..6 gzip members written back to back, each by fastgo or the standard library at a random level with its own header, payloads incl. empty and > 64 KiB; optional trailing non-gzip data (1 byte, 100 bytes); destination sizes as in C02; *bufio.Reader source of 64, 4096 or 65536 bytes. Default mode: the Reader must return the concatenation of the payloads, then io.EOF (when no trailing data), with the first member's header. Multistream(false)+Reset on the same source: each member's payload and header separately and in order (the Header values kept by the caller are compared once more after the last member); Reset after the last member returns io.EOF when nothing follows; trailing data are still in the source, untouched, after the last member's io.EOF. Non-trivial: at least two members; distinct by (sequence digest, mode, source)."
 }
 func (c08) NumCases(tier string) int {
 	if tier == "thorough" {
@@ -126,12 +126,27 @@ func (c08) Run(c *mon.Ctx, i int) {
 				problem, sig = fmt.Sprintf("NewReader: %v", e), "member-mode|constructor"
 				return
 			}
+			// the caller keeps every member's Header value (a struct copy, as a
+			// listing tool does) and looks at all of them again at the end
+			var kept []impl.Header
+			defer func() {
+				if problem != "" {
+					return
+				}
+				for m, h := range kept {
+					if f := hdrEqual(headers[m], h); f != "" {
+						problem, sig = fmt.Sprintf("member %d of %d: header field %s of the Header value kept by the caller changed while later members were read", m, n, f), "member-mode|kept-header|"+f[:2]
+						return
+					}
+				}
+			}()
 			for m := 0; m < n; m++ {
 				z.Multistream(false)
 				if f := hdrEqual(headers[m], z.Header()); f != "" {
 					problem, sig = fmt.Sprintf("member %d of %d: header field %s differs", m, n, f), "member-mode|header|"+f[:2]
 					return
 				}
+				kept = append(kept, z.Header())
 				got, err, _ := readAllSizes(z, gen.ReadSizes(r, style), len(payloads[m])+1<<20)
 				if err != io.EOF || !bytes.Equal(got, payloads[m]) {
 					problem, sig = fmt.Sprintf("member %d of %d: %d bytes then %v; payload is %d bytes (first difference %d)", m, n, len(got), err, len(payloads[m]), firstDiff(got, payloads[m])), "member-mode|payload|"+errKind(err)
